@@ -809,14 +809,32 @@ fn render_fn(src: &str, sig: &Signature, block: Option<&Block>, req: &Value, who
         }
     }
     let generics = if gens.is_empty() { String::new() } else { format!("<{}>", gens.join(", ")) };
-    let inputs: Vec<String> = sig
-        .inputs
-        .iter()
-        .map(|i| match (i, &v.cfg.self_rename) {
+    // T10 (parameters): a pattern parameter becomes a named parameter + `let <pattern> = <name>;`
+    let sig_pat = ann.get("sig_pat").and_then(|x| x.as_object()).cloned().unwrap_or_default();
+    let mut param_lets: Vec<String> = vec![];
+    let mut inputs: Vec<String> = vec![];
+    for i in sig.inputs.iter() {
+        let s = match (i, &v.cfg.self_rename) {
             (FnArg::Receiver(_), Some((nm, ty))) => format!("{}: {}", nm, ty),
+            (FnArg::Typed(pt), _) => {
+                let ptxt = v.ed.r(&*pt.pat);
+                let key: String = ptxt.split_whitespace().collect::<Vec<_>>().join(" ");
+                match sig_pat.get(&key).and_then(|x| x.as_str()) {
+                    Some(nm) => {
+                        param_lets.push(format!("let {} = {};", ptxt, nm));
+                        v.ed.count("T10");
+                        format!("{}: {}", nm, v.ed.r(&*pt.ty))
+                    }
+                    None => v.ed.r(i),
+                }
+            }
             _ => v.ed.r(i),
-        })
-        .collect();
+        };
+        inputs.push(s);
+    }
+    if param_lets.len() != sig_pat.len() {
+        return Err(format!("lost anchor: pattern parameter not found in `{}`", name));
+    }
     let ret_name = ann.get("ret").and_then(|x| x.as_str()).unwrap_or("r");
     let ret = match &sig.output {
         ReturnType::Default => String::new(),
@@ -855,6 +873,9 @@ fn render_fn(src: &str, sig: &Signature, block: Option<&Block>, req: &Value, who
     // ---- body
     match (block, body_mode) {
         (Some(b), "keep") => {
+            for l in param_lets.iter() {
+                v.ed.insert(rng(&b.brace_token.span.open()).1, format!(" {}", l), "");
+            }
             // loops: iterator naming, invariants, inserted statements
             let loops = std::mem::take(&mut v.loops);
             for li in loops.iter() {
